@@ -53,22 +53,25 @@ FS_OPS = ['insert', 'emplace', 'insert_hint', 'erase_key', 'erase_pos', 'erase_r
           'merge_same', 'swap', 'copy_move', 'compare']
 FS_OPS_SORT = ['insert_range', 'from_vector', 'ctor_range']     # bulk paths through std::sort / std::inplace_merge
 
-def fs_cfg(vec=0, n=2, cmp=2, d=0, sh=0, cls=2, keys=8, mx=4, stub=False):
-    c = {'FS_VEC': vec, 'FS_N': n, 'FS_CMP': cmp, 'FS_DIR': d, 'FS_SHIFT': sh, 'FS_CLS': cls, 'FS_KEYS': keys, 'FS_MAX': mx}
+def fs_cfg(vec=0, n=2, cmp=2, d=0, sh=0, cls=2, keys=8, mx=4, stub=False, rng=2, form=None, il=False):
+    c = {'FS_VEC': vec, 'FS_N': n, 'FS_CMP': cmp, 'FS_DIR': d, 'FS_SHIFT': sh, 'FS_CLS': cls, 'FS_KEYS': keys, 'FS_MAX': mx, 'FS_RANGE': rng}
     if stub: c['FS_STUBSORT'] = ''
+    if form is not None: c['FS_FORM'] = form
+    if il: c['FS_IL'] = ''
     return c
 
 def fs_name(c):
     v = {0: 'vec', 1: 'sv%d' % c['FS_N'], 2: 'fcv%d' % c['FS_N']}[c['FS_VEC']]
     cm = {0: 'less', 1: 'greater', 2: 'st%d%d' % (c['FS_DIR'], c['FS_SHIFT']), 3: 'transp'}[c['FS_CMP']]
-    return '%s_%s_%s_k%d_m%d%s' % (v, cm, 'IHA'[c['FS_CLS']], c['FS_KEYS'], c['FS_MAX'], '_stub' if 'FS_STUBSORT' in c else '')
+    return '%s_%s_%s_k%d_m%d%s%s%s' % (v, cm, 'IHA'[c['FS_CLS']], c['FS_KEYS'], c['FS_MAX'], '_stub' if 'FS_STUBSORT' in c else '',
+                                    '_f%d' % c['FS_FORM'] if 'FS_FORM' in c else '', '_il' if 'FS_IL' in c else '')
 
-def fs_queries(Query, ops, cfgs, timeout=400, unwind=12):
+def fs_queries(Query, ops, cfgs, timeout=400, unwind=None, mem_gb=4):
     qs = []
     for c in cfgs:
         for op in ops:
             if op == 'lookup_transparent' and c['FS_CMP'] != 3: continue
-            qs.append(Query('fs_%s.%s' % (op, fs_name(c)), 'flatset_ops.cpp', 'h_' + op, defs=c, arena=(4, 16), unwind=unwind, timeout=timeout,
+            qs.append(Query('fs_%s.%s' % (op, fs_name(c)), 'flatset_ops.cpp', 'h_' + op, defs=c, arena=(4, 16), unwind=unwind or (c['FS_MAX'] + c['FS_RANGE'] + 3), timeout=timeout, mem_gb=mem_gb,
                             symbolic='underlying vector state class, sorted content (keys), key / hint / range contents, node presence',
                             bounds=dict(elements_max=c['FS_MAX'], key_domain=c['FS_KEYS'], range_max=3, comparator=fs_name(c).split('_')[1],
                                         sort_and_inplace_merge='contract stub (stable insertion sort)' if 'FS_STUBSORT' in c else 'real libstdc++')))
@@ -161,6 +164,35 @@ def swap2_queries(Query, tier):
                                 bounds=dict(size_max=cmax, capacity_max=cmax, impossible_exchange_reachable=impossible)))
     return qs
 
+def flatset_plan(Query, pid, tier):
+    quick = tier == 'quick'
+    ST = [(0, 0), (1, 0), (0, 1), (1, 1)]      # (direction, coarseness) of the stateful comparator
+    hint = []
+    for f in (0, 1, 2):
+        hint.append(fs_cfg(1, cmp=0, mx=3, form=f))                                     # SmallVector<,2>, std::less
+    hint += [fs_cfg(0, cmp=2, d=1, sh=1, mx=3, form=0, cls=1), fs_cfg(0, cmp=2, d=0, sh=1, mx=3, form=2, cls=1), fs_cfg(2, n=8, cmp=1, mx=3, form=1)]
+    if not quick:
+        hint += [fs_cfg(0, cmp=2, d=d, sh=sh, mx=4, form=f, cls=1) for d, sh in ST for f in (0, 1, 2)] + [fs_cfg(1, n=4, cmp=3, mx=4, form=f) for f in (0, 1, 2)]
+    if pid == 'C12':
+        return fs_queries(Query, ['insert_hint'], hint, timeout=600 if quick else 1500)
+    base = [fs_cfg(0, cmp=2, d=1, sh=1), fs_cfg(1, cmp=0), fs_cfg(2, n=8, cmp=3)]
+    if not quick: base += [fs_cfg(0, cmp=2, d=d, sh=sh, mx=5) for d, sh in ST] + [fs_cfg(1, n=4, cmp=1, mx=5), fs_cfg(0, cmp=3, mx=5)]
+    simple = [o for o in FS_OPS if o not in ('insert_hint', 'merge_same')]
+    if pid == 'C03':
+        q = fs_queries(Query, simple, base, timeout=600)
+        q += fs_queries(Query, ['lookup_transparent'], [c for c in base if c['FS_CMP'] == 3])
+        q += fs_queries(Query, ['insert_hint'], hint[:2] if quick else hint, timeout=600)
+        q += fs_queries(Query, ['insert_range'], [fs_cfg(0, cmp=2, d=1, sh=1, stub=True, mx=2, cls=1), fs_cfg(1, cmp=0, stub=True, mx=2, cls=0)] +
+                        ([] if quick else [fs_cfg(0, cmp=2, d=0, sh=1, stub=True, mx=2, cls=1, il=True), fs_cfg(2, n=8, cmp=1, stub=True, mx=3)]), timeout=900, mem_gb=8)
+        q += fs_queries(Query, ['merge_same'], [fs_cfg(0, cmp=2, d=1, sh=1, mx=1, cls=1), fs_cfg(1, cmp=0, mx=1, cls=0)], timeout=900, mem_gb=10)
+        q += fs_queries(Query, ['ctor_range', 'from_vector'], [fs_cfg(0, cmp=2, d=1, sh=1, stub=True, mx=1, rng=1, cls=1), fs_cfg(1, cmp=0, stub=True, mx=1, rng=1, cls=0)], timeout=900, mem_gb=8)
+        return q
+    if pid == 'C19':
+        q = fs_queries(Query, ['lookup', 'insert', 'emplace', 'erase_key'], base, timeout=600)
+        q += fs_queries(Query, ['insert_hint'], hint[:3] if quick else hint, timeout=600)
+        return q
+    return []
+
 def plan(pid, tier, Query):
     quick = tier == 'quick'
     if pid == 'C08':
@@ -229,9 +261,11 @@ def plan(pid, tier, Query):
         for q in qs: q.unwindset.update({'vf_memcpy.0': 48, 'vf_memset.0': 48}); q.name = 'reloc_' + q.name
         return qs
     if tier == 'fsurvey':
-        return (fs_queries(Query, FS_OPS, [fs_cfg(0, cmp=2, d=1, sh=1), fs_cfg(1, cmp=0), fs_cfg(2, n=6, cmp=3)] ) +
-                fs_queries(Query, ['lookup_transparent'], [fs_cfg(2, n=6, cmp=3)]) +
-                fs_queries(Query, FS_OPS_SORT, [fs_cfg(0, cmp=2, d=1, sh=1, stub=True), fs_cfg(1, cmp=0, stub=True), fs_cfg(1, cmp=0, mx=2)]))
+        return (fs_queries(Query, ['insert_hint'], [fs_cfg(1, cmp=0, mx=3, form=f) for f in (0, 1, 2)] + [fs_cfg(0, cmp=2, d=1, sh=1, mx=3, form=0, cls=1)]) +
+                fs_queries(Query, ['merge_same'], [fs_cfg(0, cmp=2, d=1, sh=1, mx=2), fs_cfg(1, cmp=0, mx=2, cls=0)], mem_gb=10) +
+                fs_queries(Query, FS_OPS_SORT, [fs_cfg(0, cmp=2, d=1, sh=1, stub=True, mx=2, cls=1), fs_cfg(1, cmp=0, stub=True, mx=2, cls=0), fs_cfg(1, cmp=0, mx=1, rng=1, cls=0)], mem_gb=8))
+    if pid in ('C03', 'C12', 'C19'):
+        return flatset_plan(Query, pid, tier)
     if pid in ('C01', 'C02', 'C05', 'C06', 'C07'):
         return vec_plan(Query, pid, tier)
     return []
